@@ -39,7 +39,7 @@ CHECKS = {
               "race: the server's trailer Write is parked while the caller sends 1..4 more bodies, then released (reset vs trailer). "
               "Non-trivial = non-OK outcome with >=1 detail, or mid-stream failure position, or any foreign/race case; distinct = canonical case hash."),
         jobs=[dict(test="TestC03", quick=4800, thorough=40000), dict(test="TestC03Foreign", quick=800, thorough=10000, shards=4), dict(test="TestC03Race", quick=400, thorough=5000, shards=4)],
-        floors={"pos=mid-stream": 0.02, "race=armed": 0.05},
+        floors={"pos=mid-stream": 0.02, "race=armed": 0.02},
         assumptions=COMMON_ASSUMPTIONS,
     ),
     "C04": dict(
@@ -59,7 +59,7 @@ CHECKS = {
               "s->c = HEADER? BODY* TRAILER(status) then only resets answering a late body, trailer present iff the handler returned on a live un-reset stream, no reset before that trailer; constant method/source/destination, swapped in responses; "
               "response metadata only on the first response envelope; server emits only ids it has read. Non-trivial = a projection with >=4 envelopes or a reset, or an early handler return; distinct = canonical case hash."),
         jobs=[dict(test="TestC06", quick=4800, thorough=60000), dict(test="TestC06Race", quick=300, thorough=3000, shards=4), dict(test="TestC06Cancel", quick=240, thorough=3000)],
-        floors={"family=c01": 0.1, "family=c02": 0.2, "family=c03": 0.1, "family=c04": 0.1, "early_return=true": 0.1},
+        floors={"family=c01": 0.07, "family=c02": 0.15, "family=c03": 0.07, "family=c04": 0.07, "early_return=true": 0.07},
         assumptions=COMMON_ASSUMPTIONS,
     ),
     "C08": dict(
@@ -71,9 +71,9 @@ CHECKS = {
               "Non-trivial = boundary digit count (1 or 8), saturating product, malformed/overlong class, remainder <1ms, non-canonical key spelling; distinct = distinct input string / case."),
         jobs=[dict(test="TestC08Grid", kind="enum", quick=1, thorough=1, shards=1),
               dict(test="TestC08Strings", quick=24000, thorough=1000000),
-              dict(test="TestC08E2E", quick=1600, thorough=20000),
+              dict(test="TestC08E2E", quick=1600, thorough=60000),
               dict(test="FuzzC08", kind="fuzz", quick=0, thorough=180)],
-        floors={"parser.valid": 0.05, "parser.malformed": 0.2, "e2e.api": 0.01, "e2e.header.valid": 0.005},
+        floors={"parser.valid": 0.05, "parser.malformed": 0.2, "e2e.api": 0.001, "e2e.header.valid": 0.0005},
         assumptions=COMMON_ASSUMPTIONS + ["the timeout parser is reached through the verif-tagged export VerifParseGrpcTimeout (same function the server calls)"],
     ),
     "C07": dict(
@@ -84,7 +84,7 @@ CHECKS = {
               "a later send fails with the context's error; Header() returns; a reset for the id is on the tap; the handler's context is done at the next quiescent point and the handler has exited; bystanders complete exactly; the cancelled stream's wire projection conforms (C06). "
               "Non-trivial = trace length >=2, or >=1 unread response, or deadline; distinct = distinct scenario; counters.positions = number of (scenario, position) executions."),
         jobs=[dict(test="TestC07", quick=1280, thorough=6000)],
-        floors={"unread>=3": 0.1, "deadline=true": 0.3, "kind=bidi": 0.2, "kind=server": 0.2, "kind=client": 0.2},
+        floors={"unread>=3": 0.07, "deadline=true": 0.25, "kind=bidi": 0.15, "kind=server": 0.15, "kind=client": 0.15},
         assumptions=COMMON_ASSUMPTIONS + ["handlers that ignore >=2 queued requests and then wait are documented head-of-line blocking and generated under C11, not here"],
     ),
     "C11": dict(
@@ -115,7 +115,7 @@ CHECKS = {
               "Oracle at the quiescent point after the ending: Serve has returned - but not while a context-ignoring streaming handler is still running; every streaming handler has finished; the context of every in-flight handler, unary included, is done; "
               "after the context-ignoring unary handlers have been released and returned, the synctest bubble ends with no goroutine left. Non-trivial = >=1 unary and >=1 stream in flight, or a handler parked in send."),
         jobs=[dict(test="TestC10", quick=4800, thorough=30000)],
-        floors={"ending=readfail": 0.2, "ending=writefail": 0.2, "ending=stop": 0.2, "parked-in-send": 0.1},
+        floors={"ending=readfail": 0.15, "ending=writefail": 0.15, "ending=stop": 0.15, "parked-in-send": 0.1},
         assumptions=COMMON_ASSUMPTIONS + ["cancelling the context passed to Serve is not among the endings the property lists and is not generated"],
     ),
     "C12": dict(
@@ -190,7 +190,7 @@ CHECKS = {
               "Oracle: no crash; spoofed/headerless envelopes reach nobody; every honest envelope arrives exactly once at the next quiescent point whatever the bad peer does; a failed connection is reported to the disconnect callback and an envelope to its name then triggers a fresh dial; "
               "after re-attachment traffic reaches the new connection; after cancellation nothing is forwarded, Serve returns and the synctest bubble ends with no goroutine left. Non-trivial = every case (all involve a fault, a spoof or a cancellation)."),
         jobs=[dict(test="TestC17", quick=3200, thorough=30000)],
-        floors={"mode=cancel": 0.15, "mode=reattach/old_first=false/read": 0.02, "mode=spoof/other-source": 0.02},
+        floors={"mode=cancel": 0.1, "mode=reattach/old_first=false/read": 0.02, "mode=spoof/other-source": 0.02},
         assumptions=COMMON_ASSUMPTIONS,
     ),
     "C18": dict(
@@ -200,7 +200,7 @@ CHECKS = {
               "Oracle: every logical connection received exactly the envelopes the model hands to that life, in order; announcements == key lives; envelopes written on logical connections appear unchanged and in order on the shared transport; writes on a cancelled connection fail without blocking; readers of cancelled connections have returned with an error; Run has returned after Stop; no panic. "
               "rpc: the C01/C02 generators from 2..4 logical clients through one shared transport into one Server via Demux keyed by source, same oracles. Non-trivial = >=2 keys, a Cancel or a Stop."),
         jobs=[dict(test="TestC18", quick=6400, thorough=80000), dict(test="TestC18RPC", quick=320, thorough=8000)],
-        floors={"cancel=true": 0.3, "stop=true": 0.03, "cancel_while_parked=true": 0.03},
+        floors={"cancel=true": 0.25, "stop=true": 0.02, "cancel_while_parked=true": 0.03},
         assumptions=COMMON_ASSUMPTIONS,
     ),
     "C19": dict(
@@ -213,7 +213,7 @@ CHECKS = {
               "Non-trivial = >=2 envelopes or a body >32KiB (roundtrip); every raw/ctx/idle case."),
         jobs=[dict(test="TestC19RoundTrip", quick=480, thorough=8000), dict(test="TestC19Raw", quick=800, thorough=20000), dict(test="TestC19Ctx", quick=48, thorough=400, shards=8),
               dict(test="TestC19Idle", quick=400, thorough=6000, shards=8), dict(test="FuzzC19Decode", kind="fuzz", quick=0, thorough=120)],
-        floors={"rt.websocket": 0.1, "rt.http": 0.1, "rt.channel": 0.05},
+        floors={"rt.websocket": 0.05, "rt.http": 0.05, "rt.channel": 0.02},
         assumptions=COMMON_ASSUMPTIONS + ["WebSocket and HTTP sub-checks use real loopback sockets and wall-clock budgets; exceeding a budget is reported as inconclusive (exit 2), never as a violation"],
         timeout_quick=600,
     ),
@@ -223,7 +223,7 @@ CHECKS = {
               "C11 abandonments, C16 proxy envelopes and RPCs, C17, C18 demux model and RPCs, C20 interceptors/stats) are executed at GOMAXPROCS 1, 2, 4 and 16 (go test -cpu) with a callback at every verif hook point that yields the processor according to a drawn tape. "
               "The only oracle is the race detector (GORACE=halt_on_error=1): a report with at least one goat frame is a violation, a report without one is a harness bug (exit 2). Non-trivial = a workload with >=2 user goroutines on one connection; distinct = (family, case)."),
         jobs=[dict(test="TestC15", race=True, cpu="1,2,4,16", quick=960, thorough=24000)],
-        floors={"family=c02": 0.05, "family=c10": 0.03, "family=c18": 0.03, "gomaxprocs=16": 0.2, "gomaxprocs=1": 0.2},
+        floors={"family=c02": 0.05, "family=c10": 0.02, "family=c18": 0.02, "gomaxprocs=16": 0.15, "gomaxprocs=1": 0.15},
         assumptions=COMMON_ASSUMPTIONS + ["the race detector only sees the interleavings that were executed: this is search, not proof"],
         timeout_quick=900,
     ),
